@@ -100,9 +100,10 @@ def run_grids(rep, pairs):
 SCORES = [-1, 0, 1, 2]
 
 
-def one_table(G, T, table, mm, order=None, mode='serial', lazy=False):
+def one_table(G, T, table, mm, order=None, mode='serial', lazy=False, scale=1.0):
     """one real execute() + resolve(); returns list of (what, detail)"""
     keys = [(('k', i),) for i in range(G)]
+    table = tuple(x * scale for x in table)
     so.reset(table={k: list(table[i * T:(i + 1) * T]) for i, k in enumerate(keys)})
     out = []
     ht = HyperTuner(so.ScriptOptA(), {'k': list(range(G))})
@@ -139,10 +140,10 @@ def one_table(G, T, table, mm, order=None, mode='serial', lazy=False):
     bk = tuple(sorted(bp.items())) if isinstance(bp, dict) else None
     if bk not in means:
         out.append(('best-parameters-not-a-grid-point', f"{bp!r}"))
-    elif abs(means[bk] - best) > 1e-12:
+    elif abs(means[bk] - best) > 1e-12 * scale:
         out.append((f'best-parameters-not-optimal|{mm}', f"means {means}, best_parameters {bp} (table {table}, "
                     f"{T} trials, direction {mm})"))
-    elif abs(float(ht.best_score) - means[bk]) > 1e-12:
+    elif abs(float(ht.best_score) - means[bk]) > 1e-12 * scale:
         out.append(('best-score-not-the-mean', f"best_score {ht.best_score}, mean {means[bk]}"))
     if not out:
         n0 = len(so.LOG)
@@ -161,12 +162,12 @@ def _work(args):
     try:
         for table in tables:
             for mm in ('min', 'max'):
-                for order, lazy in [(o, False) for o in orders] + [(None, True)]:
-                    finds, ht = one_table(G, T, table, mm, order, lazy=lazy)
+                for order, lazy, scale in [(o, False, 1.0) for o in orders] + [(None, True, 1.0), (None, False, 1e-9)]:
+                    finds, ht = one_table(G, T, table, mm, order, lazy=lazy, scale=scale)
                     n += 1
                     for what, d in finds:
                         res.setdefault(what, (d, {'part': 'table', 'G': G, 'T': T, 'table': list(table), 'mm': mm,
-                                                   'order': order, 'lazy': lazy}))
+                                                   'order': order, 'lazy': lazy, 'scale': scale}))
                     if sample is None and mm == 'max' and ht is not None and len(set(table)) > 2:
                         sample = {'grid_points': G, 'trials': T, 'score_table': list(table), 'direction': mm,
                                   'trial_execution_order': order, 'best_parameters': ht.best_parameters,
@@ -239,6 +240,31 @@ def run_reuse(rep):
                   "execute() calls on ONE HyperTuner object; oracle on the second call only")
 
 
+def run_none_values(rep):
+    """grid values that are None (or falsy) must reach the optimizer exactly as given"""
+    n = 0
+    pools.install()
+    try:
+        for grid in ({'k': [0, 1], 'flag': [None, 3]}, {'k': [0], 'flag': [0, None]}, [{'k': [1], 'flag': [None]}, {'k': [0]}]):
+            pts = ref_points(grid)
+            so.reset(fn=so.score_of_k)
+            ht = HyperTuner(so.ScriptOptA(), grid)
+            with contextlib.redirect_stdout(io.StringIO()):
+                ht.execute(so.task0(so.T0, 'min'), n_trials=1)
+            n += 1
+            seen = [{k: r['config'].get(k) for k in ('k', 'flag')} for r in so.LOG]
+            want = [{'k': p.get('k'), 'flag': p['flag'] if 'flag' in p else 7} for p in pts]
+            if sorted(map(repr, seen)) != sorted(map(repr, want)):
+                rep.finding('C19|HyperTuner|grid-point-not-run-with-its-own-parameters',
+                            f"grid {grid}: configurations seen by the optimizer {seen}, grid points {want}",
+                            {'kind': 'e3', 'module': 'c19', 'case': {'part': 'none'}})
+    finally:
+        pools.uninstall()
+    rep.part('none-valued-grid-entries', n, n, states=n, transitions=n,
+             rule="grids whose value lists contain None / 0 for a parameter whose default is neither: the configuration the "
+                  "optimizer runs with must carry exactly the grid point's values")
+
+
 def run_modes_and_conformance(rep):
     """modes are passed through; the model pool agrees with the real ProcessPoolExecutor on _df_fit"""
     n = 0
@@ -279,6 +305,7 @@ def run(rep, tier):
     else:
         run_tables(rep, [(2, 1), (3, 1), (4, 1), (2, 2), (3, 2), (4, 2), (2, 3)])
     run_reuse(rep)
+    run_none_values(rep)
     run_modes_and_conformance(rep)
     rep.assume("scores over the alphabet {-1,0,1,2}; ties may be broken any way", "ScriptOpt: real optimize(), scripted populations")
 
@@ -291,13 +318,16 @@ def replay(case):
     elif case['part'] == 'table':
         pools.install()
         try:
-            finds, _ = one_table(case['G'], case['T'], tuple(case['table']), case['mm'], case['order'], lazy=case.get('lazy', False))
+            finds, _ = one_table(case['G'], case['T'], tuple(case['table']), case['mm'], case['order'], lazy=case.get('lazy', False),
+                                 scale=case.get('scale', 1.0))
         finally:
             pools.uninstall()
         for what, d in finds:
             rep.finding(f"C19|HyperTuner|{what}", d, {})
     elif case['part'] == 'reuse':
         run_reuse(rep)
+    elif case['part'] == 'none':
+        run_none_values(rep)
     else:
         run_modes_and_conformance(rep)
     return rep.findings
